@@ -222,6 +222,10 @@ def gen_idmap(r):
         if mode == 0:
             phase = len(ops) * 2 // n
             k = (k % 45) if phase == 0 else 45 + (k % 55)
+        if r.chance(1, 40):
+            ops.append("fini")          # the library finalises its registered maps at nng_fini and uses them again
+            keys.clear()
+            continue
         if r.chance(1, 30):
             ops.append("fail")
             ops.append(r.choice([f"set {key()} {r.range(1, 255)}", f"alloc {r.range(1, 255)} {r.next() % (1 << 32)}",
@@ -273,6 +277,8 @@ def directed(comp):
     if comp == "idmap":
         cs.append(["init 1 3 0", "alloc 1 0", "alloc 2 0", "alloc 3 0", "alloc 4 0", "remove 2", "alloc 5 0", "alloc 6 0",
                    "remove 1", "remove 3", "alloc 7 0", "alloc 8 0", "visit"])
+        cs.append(["init 1 100 0", "alloc 1 0", "alloc 2 0", "alloc 3 0", "fini", "alloc 4 0", "alloc 5 0", "visit", "fini", "fini", "alloc 6 0", "visit"])
+        cs.append(["init 0 0 1", "alloc 1 77", "alloc 2 78", "fini", "alloc 3 5", "set 9 9", "fini", "get 9", "alloc 4 6", "visit"])
         cs.append(["init 0 0 0"] + [f"set {8 * i} {i + 1}" for i in range(12)] + [f"get {8 * i}" for i in range(13)] +
                   [f"remove {8 * i}" for i in range(0, 12, 2)] + [f"get {8 * i}" for i in range(12)] + ["visit"])
     return cs
